@@ -4,7 +4,7 @@
    D ranges over ALL environments of declarations of the notation! language (Fmt.v); raw_env is
    the table GENERATED from raw_class_file/src/lib.rs at the start of every check (RawGen.v);
    jvms_env is the hand-written JVMS table (Jvms.v). *)
-From FB Require Import C20.Fmt C20.FmtTheory C20.RawGen C20.Jvms.
+From FB Require Import C20.Fmt C20.FmtTheory C20.Sim C20.SimTheory C20.Exact C20.RawGen C20.Jvms C20.AttrResolve C20.JvmsRead.
 Open Scope N_scope.
 
 (* ---------- generic: the three interpreters, for every environment D ---------- *)
@@ -166,3 +166,136 @@ Print Assumptions C20_examples.
 Theorem C20_frames_closed_form : frames_closed_form.
 Proof. exact frames_closed_form_holds. Qed.
 Print Assumptions C20_frames_closed_form.
+
+(* what the hypothesis [resolves] amounts to for attributes, over the generated table: the alternative
+   [k] is selected for the name index [i] iff [i] designates a Utf8 pool entry (one that STARTS at i:
+   not index 0, not the second index of a long/double, not past the end) which holds
+     - the alternative's own name, when it has one (the names of the table are pairwise different, so no
+       earlier alternative claims it),
+     - a name no alternative of the table has, when [k] is the catch-all `Other` *)
+Theorem C20_attr_dispatch_closed_form : forall p i k,
+  (exists va env, select raw_env p [(ani, VN i)] i attr_variants O = Ok (k, va, env)) <->
+  (exists bytes va, pool_utf8 raw_env p i = Some bytes /\ nth_error attr_variants k = Some va /\
+     match attr_name va with
+     | Some s => bytes = map VN s
+     | None => forall va' s, In va' attr_variants -> attr_name va' = Some s -> bytes <> map VN s
+     end).
+Proof. exact attr_dispatch_closed_form. Qed.
+Print Assumptions C20_attr_dispatch_closed_form.
+
+(* [resolves] of an attribute value = its name index fits u2 and dispatches to the value's own
+   alternative, and the items resolve *)
+Theorem C20_attr_resolves_closed_form : forall f p k vs,
+  resolves raw_env (S f) p attr_ty (VV k vs) = true <->
+  exists va i rest, nth_error attr_variants k = Some va /\ vs = VN i :: rest /\ i < 65536 /\
+    attr_dispatch p i = Some k /\
+    res_fields raw_env (resolves raw_env f)
+      (ceval raw_env (bind_fields (v_fields va) vs) (len_sty raw_env (S f) attr_ty (VV k vs)))
+      p [(ani, VN i); (ani, VN i)] (v_fields va) vs = true.
+Proof. exact attr_resolves_closed_form. Qed.
+Print Assumptions C20_attr_resolves_closed_form.
+
+(* ---------- names ---------- *)
+(* every generated structure lists the JVMS items under the JVMS names in the JVMS order, every generated
+   alternative is the JVMS structure of that name (same tag / attribute name, same items): exchanging two
+   items of equal width, or the tags of two alternatives of equal shape, is noticed *)
+Theorem C20_names_are_jvms : forall n d, In (n, d) raw_env ->
+  exists j, lookup jvms_env n = Some j /\ names_match n d j = true.
+Proof. exact names_are_jvms. Qed.
+Print Assumptions C20_names_are_jvms.
+
+(* ---------- every well-formed class file is read (and reproduced); only well-formed ones are written ---------- *)
+(* inputs: bytes, fewer than 2^32 of them ([okb]; `_len()` is u32 arithmetic) *)
+(* generic, for ALL pairs of tables: when the decidable comparison [env_compat S D] succeeds, whatever the
+   strict reader generated from S accepts, the strict reader generated from D accepts, with the same
+   bytes left over (pools: any two the readers cannot tell apart) *)
+Theorem C20_compat_tables_read_alike : forall S D, env_compat S D = true ->
+  forall fuel pS pD t bs vS rest, Forall (fun b => b < 256) bs /\ N.of_nat (length bs) < 4294967296 -> pool_rel S D pS pD ->
+  read_sty S true fuel pS t bs = Ok (vS, rest) ->
+  exists vD, read_sty D true fuel pD t bs = Ok (vD, rest) /\ vrel S D t vS vD.
+Proof. exact sim_read. Qed.
+Print Assumptions C20_compat_tables_read_alike.
+
+(* the reader never consumes more or less than the announced length of what it returns *)
+Theorem C20_read_len : forall D strict fuel p t bs v rest, Forall (fun b => b < 256) bs ->
+  read_sty D strict fuel p t bs = Ok (v, rest) ->
+  exists pre, bs = pre ++ rest /\ len_sty D fuel t v = Ok (N.of_nat (length pre)).
+Proof. exact read_len. Qed.
+Print Assumptions C20_read_len.
+
+(* whatever a writer emits are bytes *)
+Theorem C20_write_bytes_ok : forall D fuel t v b, write_sty D fuel t v = Ok b -> Forall (fun x => x < 256) b.
+Proof. exact write_bytes_ok. Qed.
+Print Assumptions C20_write_bytes_ok.
+
+(* instance: the hand-written JVMS table against the table generated from lib.rs, in both directions
+   (re-evaluated on every run) *)
+Theorem C20_tables_compat : env_compat jvms_env raw_env = true /\ env_compat raw_env jvms_env = true.
+Proof. exact (conj tables_compat tables_compat_rev). Qed.
+Print Assumptions C20_tables_compat.
+
+(* a class file accepted by the strict reader generated from the JVMS table (= laid out as JVMS 4.1-4.7
+   says, pool counted in indices with 8-byte constants taking two, every attribute_length exact) is
+   accepted by the strict reader of the generated table AND by the crate's own (lax) reader, with the
+   same bytes left over; the value read is written back as exactly the bytes consumed, which are also
+   the bytes the JVMS value denotes *)
+Theorem C20_reads_every_wellformed_class : forall fuel bs v rest,
+  Forall (fun b => b < 256) bs /\ N.of_nat (length bs) < 4294967296 ->
+  read_sty jvms_env true fuel None class_ty bs = Ok (v, rest) ->
+  exists v' pre, read_sty raw_env true fuel None class_ty bs = Ok (v', rest) /\
+    read_sty raw_env false fuel None class_ty bs = Ok (v', rest) /\
+    bs = pre ++ rest /\ write_sty raw_env fuel class_ty v' = Ok pre /\ write_sty jvms_env fuel class_ty v = Ok pre.
+Proof. exact reads_every_wellformed_class. Qed.
+Print Assumptions C20_reads_every_wellformed_class.
+
+(* the strict reader of the generated table accepts exactly the well-formed class files *)
+Theorem C20_strict_accepts_iff : forall fuel bs rest,
+  Forall (fun b => b < 256) bs /\ N.of_nat (length bs) < 4294967296 ->
+  (exists v, read_sty jvms_env true fuel None class_ty bs = Ok (v, rest)) <->
+  (exists v', read_sty raw_env true fuel None class_ty bs = Ok (v', rest)).
+Proof. exact strict_accepts_iff. Qed.
+Print Assumptions C20_strict_accepts_iff.
+
+(* generic, for ALL tables: among the inputs the lax reader (the crate's own: computed items are bound and
+   never looked at) accepts, the ones `read` then `write` reproduces byte for byte are exactly the ones the
+   strict reader accepts *)
+Theorem C20_exact_iff_strict : forall D fuel p t bs v rest, Forall (fun b => b < 256) bs ->
+  read_sty D false fuel p t bs = Ok (v, rest) ->
+  (exists pre, bs = pre ++ rest /\ write_sty D fuel t v = Ok pre) <-> read_sty D true fuel p t bs = Ok (v, rest).
+Proof. exact exact_iff_strict. Qed.
+Print Assumptions C20_exact_iff_strict.
+
+(* instance: among the class files ClassFile::read accepts to their last byte, to_bytes reproduces exactly
+   the well-formed ones *)
+Theorem C20_rewrite_exact_iff_wellformed : forall fuel bs v,
+  Forall (fun b => b < 256) bs /\ N.of_nat (length bs) < 4294967296 ->
+  read_sty raw_env false fuel None class_ty bs = Ok (v, []) ->
+  (write_sty raw_env fuel class_ty v = Ok bs <-> exists j, read_sty jvms_env true fuel None class_ty bs = Ok (j, [])).
+Proof. exact rewrite_exact_iff_wellformed. Qed.
+Print Assumptions C20_rewrite_exact_iff_wellformed.
+
+(* ClassFile::read / to_bytes on a well-formed class file *)
+Theorem C20_class_read_wellformed : forall bs v,
+  Forall (fun b => b < 256) bs /\ N.of_nat (length bs) < 4294967296 ->
+  class_read_strict jvms_env bs = Ok (v, []) ->
+  exists v', class_read raw_env bs = Ok (v', []) /\ class_read_strict raw_env bs = Ok (v', []) /\
+    write_sty raw_env (S (S (length bs))) class_ty v' = Ok bs.
+Proof. exact class_read_wellformed. Qed.
+Print Assumptions C20_class_read_wellformed.
+
+(* "so that other readers see the same structure": whatever ClassFile::to_bytes writes for a value inside
+   the hypotheses of read_write is a well-formed class file — the JVMS reader accepts it to its last
+   byte, and the JVMS value it reads denotes the same bytes *)
+Theorem C20_writes_only_wellformed_classes : forall v bs fuel, class_write raw_env v = Ok bs ->
+  resolves raw_env (S (depth v)) None class_ty v = true -> N.of_nat (length bs) < 4294967296 ->
+  (S (depth v) <= fuel)%nat ->
+  exists j, read_sty jvms_env true fuel None class_ty bs = Ok (j, []) /\ write_sty jvms_env fuel class_ty j = Ok bs.
+Proof. exact writes_only_wellformed_classes. Qed.
+Print Assumptions C20_writes_only_wellformed_classes.
+
+(* non-vacuity: the crate's fixture, javac classes (stack map frames; long/double constants) are
+   well-formed for the JVMS reader to their last byte; a pool overshooting its count is not *)
+Theorem C20_jvms_examples : jvms_accepts ex_simple = true /\ jvms_accepts ex_flow = true /\ jvms_accepts ex_wide = true /\
+  jvms_accepts wide_class_bytes = true /\ jvms_accepts overshoot_class_bytes = false.
+Proof. exact jvms_examples. Qed.
+Print Assumptions C20_jvms_examples.
